@@ -24,7 +24,6 @@
 use cardano_serialization_lib::*;
 use csl_verif_harness::util::*;
 
-fn bn(s: &str) -> BigNum { BigNum::from_str(s).expect("u64 in case") }
 fn b64(x: u64) -> BigNum { BigNum::from(x) }
 
 // ------------------------------------------------------------------------------------------------
@@ -316,7 +315,7 @@ fn fill_oracles(c: &mut Case) {
 
 // ------------------------------------------------------------------------------------------------
 // generators
-const CPBS: [u64; 6] = [4310, 4310, 4310, 0, 1, 34482];
+const CPBS: [u64; 9] = [4310, 4310, 4310, 4310, 0, 1, 34482, 1 << 60, u64::MAX / 3];   // the last two: min-ADA computation overflows
 fn policy(i: u64) -> Vec<u8> { vec![0x10 + i as u8; 28] }
 fn aname(r: &mut Rng) -> Vec<u8> { match r.below(5) { 0 => vec![], 1 => vec![0x41], 2 => vec![0x41, 0x42], 3 => vec![0x7a; 32], _ => vec![0x42] } }
 fn addr_bytes(i: u8) -> Vec<u8> { key_addr(i).to_bytes() }
@@ -435,7 +434,7 @@ fn gen(dir: &str) {
         let res = guarded(move || exec(&toks));
         out.emit(&line, &res);
     };
-    let scale = if thorough { 12 } else { 1 };
+    let scale = if thorough { 40 } else { 4 };
 
     // 1. explicit return output -> total: every relation between the return's assets and the inputs'
     for k in 0..(700 * scale) {
@@ -485,6 +484,18 @@ fn gen(dir: &str) {
             (u64::MAX / 170_000).wrapping_add(r.below(2000)).wrapping_sub(1000) } else { pct(&mut r) };
         c.ops.push(Op::P(p, any_addr(&mut r), false, None));
         if r.chance(1, 5) { c.ops.push(Op::P(pct(&mut r), any_addr(&mut r), false, None)); }
+        if k % 10 == 7 {
+            // the collateral is exactly (or one off) what the helper will ask for: nothing / one lovelace to return
+            let p = 2000 + r.below(2000);
+            let a = any_addr(&mut r);
+            let mk = |coin: u64| vec![Op::C(vec![(txid(0), 0, Val { coin, ma: None })]), Op::P(p, a.clone(), false, None)];
+            c.ops = mk(5_000_000);
+            let mut probe = c.clone(); fill_oracles(&mut probe);
+            if let Op::P(_, _, true, Some(f)) = &probe.ops[1] {
+                let req = (*f as u128 * p as u128 / 100 + 1) as u64;
+                c.ops = mk(match r.below(3) { 0 => req, 1 => req + 1, _ => req - 1 });
+            }
+        }
         emit(&mut out, c);
     }
     // 4. random histories of all operations (both orders of everything)
@@ -493,6 +504,7 @@ fn gen(dir: &str) {
         let odd = k % 5 == 4;
         let mut cur: Vec<(Vec<u8>, u32, Val)> = vec![];
         let n = 2 + r.below(7);
+        if r.chance(3, 4) { cur = rand_collateral(&mut r, 50, odd); c.ops.push(Op::C(cur.clone())); }
         for _ in 0..n { let op = rand_op(&mut r, &c, &mut cur, odd); c.ops.push(op); }
         emit(&mut out, c);
     }
@@ -512,7 +524,8 @@ fn gen(dir: &str) {
         match (&sum, r.below(3)) {
             (Some(s), 0) => { let o = derived_return(&mut r, &c, s); c.ops.push(Op::RT(o)); }
             (Some(s), 1) => { let t = derived_total(&mut r, &c, s); c.ops.push(Op::TR(t, any_addr(&mut r))); }
-            _ => { c.ops.push(Op::TR(r.u64_edge(), any_addr(&mut r))); c.ops.push(Op::RT(Outp { addr: addr_bytes(0x23), val: Val { coin: 2_000_000, ma: None }, extra: vec![] })); }
+            _ => { c.ops.push(Op::TR(r.u64_edge(), any_addr(&mut r))); c.ops.push(Op::RT(Outp { addr: addr_bytes(0x23), val: Val { coin: 2_000_000, ma: None }, extra: vec![] }));
+                   if r.chance(1, 2) { c.ops.swap(1, 2); } }
         }
         emit(&mut out, c);
     }
